@@ -82,3 +82,16 @@ func init() {
 		Runs: []Run{{Pkg: hp + "c02", Variant: "scaled16", Optional: true}, {Pkg: hp + "c02", Variant: "real"}},
 	}
 }
+
+func init() {
+	specs["C03"] = &Spec{
+		Title: "Any change to the header invalidates the file before any output",
+		Level: "exploration",
+		LevelText: "For every recipient list in the family (all lists of length <=2 over {X25519 x2, ssh-ed25519, ssh-rsa, unknown-type}, selected (quick) / all (thorough) of length 3, a 5-stanza list, passphrase alone) every single-bit flip of every header byte, every one-byte deletion/duplication/insertion, and every structural edit of the parsed header (field substitutions, stanza deletion/duplication/insertion of grease and attacker-made stanzas at every position, all permutations, MAC replacements) is decrypted with every identity that opens the original; Decrypt must return (nil, error) without consuming payload. Exploration over inputs.",
+		LevelNote: "an attacker who knows the file key (a legitimate co-recipient) can recompute the MAC; such edits are outside the property and not generated. Trusts refage for parsing/re-serialising edited headers.",
+		Technique: "bounded-exhaustive input enumeration (bit flips, byte edits, grammar-level structural edits) on the implementation with an invariant oracle",
+		Rule: "enumerate every edit in the stated families of the header of real files; oracle (invariant): for every identity opening the original, age.Decrypt returns a nil reader and a non-nil error and reads no more than header+4096 bytes. distinct_nontrivial counts distinct tampered headers.",
+		Assumptions: commonAssume,
+		Runs: []Run{{Pkg: hp + "c03", Variant: "real"}},
+	}
+}
